@@ -1,6 +1,56 @@
 (* C07 — TaskGroup.start(): readiness handshake is exact and loses nothing.
    This file contains only statements closed by `exact` and their Print Assumptions. *)
-From AV Require Import Base Machine GroupThmsPure.
+From AV Require Import Base Machine GroupInv GroupInv2 GroupThmsPure GroupThms GroupThms6 GroupThms7.
+
+Theorem C07_start_returns_started_value : forall s t g c f h v, reach s -> k_ctl (tasks s t) = CStartWait g c f ->
+  (h = HStep t \/ exists f', h = HWake t f') -> snd (step s (ARun h)) = RRet v ->
+  f_st (futs s f) = FRes v /\ h = HWake t f.
+Proof. exact start_returns_started_value. Qed.
+Print Assumptions C07_start_returns_started_value.
+
+Theorem C07_started_sets_value : forall s t v f, reach s -> idle s t = true -> k_startfut (tasks s t) = Some f ->
+  f_st (futs s f) = FPend -> f_st (futs (fst (step s (AStarted t v))) f) = FRes v.
+Proof. exact started_sets_value. Qed.
+Print Assumptions C07_started_sets_value.
+
+(* nothing else can complete a start future: it is not an event waiter, not an on_completed future, not a sleep
+   future, and belongs to exactly one child *)
+Theorem C07_start_future_exclusive : forall s c f, reach s -> k_startfut (tasks s c) = Some f ->
+  (forall e, ~ In f (e_waiters (events s e))) /\ (forall g, g_fut (groups s g) <> Some f) /\
+  ~ ((exists tm, In (HSleepDone f tm) (ready s)) \/ (exists x, In x (timers s) /\ tm_what x = TSleep f)) /\
+  (forall c', k_startfut (tasks s c') = Some f -> c' = c) /\ f < nfut s.
+Proof. exact start_future_exclusive. Qed.
+Print Assumptions C07_start_future_exclusive.
+
+Theorem C07_start_pre_started_failure_routed : forall s t g f, reach s -> In (HTaskDone t) (ready s) ->
+  k_group (tasks s t) = Some g -> k_startfut (tasks s t) = Some f -> f_st (futs s f) = FPend ->
+  f_st (futs (fst (step s (ARun (HTaskDone t)))) f) =
+    FExc (match k_done (tasks s t) with Some (OExc e) => e | Some (OCanc e) => e | _ => ERuntime end) /\
+  g_excs (groups (fst (step s (ARun (HTaskDone t)))) g) = g_excs (groups s g) /\
+  (forall c, s_cancelled (scopes (fst (step s (ARun (HTaskDone t)))) c) = s_cancelled (scopes s c)).
+Proof. exact start_pre_started_failure_routed. Qed.
+Print Assumptions C07_start_pre_started_failure_routed.
+
+Theorem C07_start_cancel_joins_child : forall s t g c f h, reach s -> k_ctl (tasks s t) = CStartWait g c f ->
+  In h (ready s) -> (h = HStep t \/ exists f', h = HWake t f') ->
+  snd (step s (ARun h)) = RBlocked ->
+  (exists sc e wf, k_ctl (tasks (fst (step s (ARun h))) t) = CStartJoin c sc e wf) /\
+  s_cancelled (scopes (fst (step s (ARun h))) (k_hscope (tasks s c))) = true.
+Proof. exact start_cancel_joins_child. Qed.
+Print Assumptions C07_start_cancel_joins_child.
+
+Theorem C07_start_join_wakeup_means_child_finished : forall s t ch c e f v, reach s ->
+  k_ctl (tasks s t) = CStartJoin ch c e (Some f) -> f_st (futs s f) = FRes v ->
+  e_set (events s (k_hevent (tasks s ch))) = true /\ k_final (tasks s ch) <> None.
+Proof. exact start_join_wakeup_means_child_finished. Qed.
+Print Assumptions C07_start_join_wakeup_means_child_finished.
+
+Theorem C07_start_no_error_lost : forall s g t e, reach s -> In t (g_ever (groups s g)) ->
+  k_tdran (tasks s t) = true -> k_done (tasks s t) = Some (OExc e) ->
+  In e (map snd (g_excs (groups s g))) \/
+  exists f, k_startfut (tasks s t) = Some f /\ f_st (futs s f) = FExc e.
+Proof. exact start_no_error_lost. Qed.
+Print Assumptions C07_start_no_error_lost.
 
 Theorem C07_second_started_result : forall s t v f,
   idle s t = true -> k_startfut (tasks s t) = Some f ->
@@ -12,3 +62,9 @@ Theorem C07_second_started_result : forall s t v f,
   end.
 Proof. exact second_started_result. Qed.
 Print Assumptions C07_second_started_result.
+
+Theorem C07_second_started_keeps_future : forall s t v f, reach s -> idle s t = true ->
+  k_startfut (tasks s t) = Some f -> f_st (futs s f) <> FPend ->
+  f_st (futs (fst (step s (AStarted t v))) f) = f_st (futs s f).
+Proof. exact second_started_keeps_future. Qed.
+Print Assumptions C07_second_started_keeps_future.
